@@ -9,9 +9,13 @@ os.environ["SDLINT_NO_INLINE"] = "1"
 import facts
 fdir, sha, _ = facts.build_facts("all")
 prog = facts.Program(fdir)
-rows = sorted(set(b.qname for b in prog.bodies.values() if b.crate in ("simple_dns", "simple_mdns") and b.kind in ("Fn", "AssocFn")))
+import inline
+rows = sorted(set("%s\t%s" % (b.qname, inline.signature(b)) for b in prog.bodies.values()
+                  if b.crate in ("simple_dns", "simple_mdns") and b.kind in ("Fn", "AssocFn")))
 with open("/verif/tables/functions.tsv", "w") as fh:
-    fh.write("# qname of every function of the reference tree (facts %s); anything else is a transparent helper\n" % sha[:12])
+    fh.write("# qname <tab> signature (types of the parameters -> return type) of every function of the reference tree (facts %s);\n"
+             "# a function that is not listed is a transparent helper, unless it is the only new function with the signature of a\n"
+             "# listed function that has disappeared from the same crate (then it is that function, renamed)\n" % sha[:12])
     for r in rows:
         fh.write(r + "\n")
 print(len(rows), "functions")
